@@ -54,4 +54,195 @@ theorem good_anonBlock (pa : Attrs) (line : List Box)
   · rw [anonBlock, allN_anon]
     simp [linesAlone, singleLine, lineBox_ty, allNList, hg.2, isCls]
 
+/-! ### the second loop -/
+
+theorem not_line_of_level {t : Ty} (h : isBlockLevel t = true ∨ isInlineLevel t = true) : t ≠ .line := by
+  cases t <;> simp_all [isCls]
+
+theorem iibLoop_good (pa : Attrs) : ∀ (cs line out : List Box),
+    (∀ c ∈ cs, c.ty ≠ .line ∧ (isBlockLevel c.ty = true ∨ isInlineLevel c.ty = true) ∧ Good c) →
+    (∀ o ∈ out, isBlockLevel o.ty = true ∧ Good o) →
+    (∀ l ∈ line, l.ty ≠ .line ∧ Good l) →
+    ∃ r, iibLoop pa cs line out = .ok r ∧
+      ((∀ o ∈ r, isBlockLevel o.ty = true ∧ Good o) ∨ (∃ l, r = [l] ∧ l.ty = .line ∧ Good l))
+  | [], line, out, _, ho, hl => by
+    rw [iibLoop]
+    cases hline : line.isEmpty
+    · cases hout : out.isEmpty
+      · simp only [Bool.not_false, Bool.false_eq_true, if_false, if_true, pure, Except.pure]
+        refine ⟨_, rfl, Or.inl ?_⟩
+        intro o hm
+        rcases List.mem_append.1 hm with hm | hm
+        · exact ho o hm
+        · rw [List.mem_singleton] at hm; subst hm
+          exact ⟨by simp [anonBlock_ty, isCls], good_anonBlock pa line hl⟩
+      · simp only [Bool.not_true, Bool.false_eq_true, if_false, pure, Except.pure]
+        exact ⟨_, rfl, Or.inr ⟨_, rfl, lineBox_ty _ _, good_lineBox pa line hl⟩⟩
+    · simp only [if_true, pure, Except.pure]
+      exact ⟨_, rfl, Or.inl ho⟩
+  | c :: cs, line, out, hc, ho, hl => by
+    have hc0 := hc c (List.mem_cons_self ..)
+    have hcs : ∀ c' ∈ cs, c'.ty ≠ .line ∧ (isBlockLevel c'.ty = true ∨ isInlineLevel c'.ty = true) ∧ Good c' :=
+      fun c' h' => hc c' (List.mem_cons_of_mem _ h')
+    have hl' : ∀ l ∈ line ++ [c], l.ty ≠ .line ∧ Good l := by
+      intro l hm
+      rcases List.mem_append.1 hm with hm | hm
+      · exact hl l hm
+      · rw [List.mem_singleton] at hm; subst hm; exact ⟨hc0.1, hc0.2.2⟩
+    rw [iibLoop]
+    have hne : (c.ty == Ty.line) = false := by simpa using hc0.1
+    simp only [hne, Bool.false_eq_true, if_false]
+    split
+    · exact iibLoop_good pa cs _ _ hcs ho hl'
+    · split
+      · split
+        · exact iibLoop_good pa cs _ _ hcs ho hl'
+        · exact iibLoop_good pa cs _ _ hcs ho hl
+      · rename_i hnil
+        have hbl : isBlockLevel c.ty = true := by
+          rcases hc0.2.1 with h | h
+          · exact h
+          · exfalso; apply hnil; simp [h]
+        apply iibLoop_good pa cs _ _ hcs
+        · intro o hm
+          rcases List.mem_append.1 hm with hm | hm
+          · split at hm
+            · rcases List.mem_append.1 hm with hm | hm
+              · exact ho o hm
+              · rw [List.mem_singleton] at hm; subst hm
+                exact ⟨by simp [anonBlock_ty, isCls], good_anonBlock pa line hl⟩
+            · exact ho o hm
+          · rw [List.mem_singleton] at hm; subst hm; exact ⟨hbl, hc0.2.2⟩
+        · intro l hm; cases hm
+
+/-! ### the pass -/
+
+theorem preIIB_kids {ty : Ty} {a : Attrs} {kids : List Box} (h : preIIB ty a kids = true) :
+    (∀ k ∈ kids, k.ty ≠ .line) ∧
+    (isBlockContainer ty = true → ∀ k ∈ kids, isBlockLevel k.ty = true ∨ isInlineLevel k.ty = true) := by
+  simp only [preIIB, Bool.and_eq_true, Bool.or_eq_true, List.all_eq_true] at h
+  refine ⟨fun k hk => by simpa using h.1 k hk, fun hb k hk => ?_⟩
+  rcases h.2 with h2 | h2
+  · simp [hb] at h2
+  · exact h2 k hk
+
+theorem bcOK_of_result {ty : Ty} {a : Attrs} {r : List Box}
+    (h : (∀ o ∈ r, isBlockLevel o.ty = true ∧ Good o) ∨ (∃ l, r = [l] ∧ l.ty = .line ∧ Good l)) :
+    bcOK ty a r = true ∧ allNList bcOK r = true ∧ allNList linesAlone r = true ∧
+      (isBlockContainer ty = true → linesAlone ty a r = true) := by
+  rcases h with h | ⟨l, rfl, hty, hg⟩
+  · refine ⟨?_, ?_, ?_, fun _ => ?_⟩
+    · simp only [bcOK, blockContainerOK, Bool.or_eq_true, List.all_eq_true]
+      exact Or.inl (Or.inr fun o ho => (h o ho).1)
+    · rw [allNList_iff]; exact fun k hk => (h k hk).2.1
+    · rw [allNList_iff]; exact fun k hk => (h k hk).2.2
+    · simp only [linesAlone, Bool.or_eq_true, List.all_eq_true]
+      refine Or.inl fun o ho => ?_
+      have := not_line_of_level (Or.inl (h o ho).1)
+      simpa using this
+  · refine ⟨?_, ?_, ?_, fun hb => ?_⟩
+    · simp [bcOK, blockContainerOK, singleLine, hty]
+    · simp [allNList, hg.1]
+    · simp [allNList, hg.2]
+    · simp [linesAlone, singleLine, hty, hb]
+
+mutual
+  theorem inlineInBlock_wf_aux : ∀ (b : Box), allN preIIB b = true →
+      ∃ b', inlineInBlock b = .ok b' ∧ b'.ty = b.ty ∧ b'.a = b.a ∧ Good b'
+    | .mk ty a kids cols, h => by
+      rw [inlineInBlock]
+      rw [allN_mk] at h
+      cases hr : a.running
+      · rw [hr] at h
+        simp only [Bool.false_or, Bool.and_eq_true] at h
+        obtain ⟨hp, hks⟩ := h
+        cases kids with
+        | nil =>
+          simp only [List.isEmpty_nil, Bool.true_or, if_true, pure, Except.pure]
+          refine ⟨_, rfl, rfl, rfl, ?_, ?_⟩
+          · simp [allN_mk, bcOK, blockContainerOK, allNList]
+          · simp [allN_mk, linesAlone, allNList]
+        | cons k0 kt =>
+          obtain ⟨ks', hok, hbc, hla, hpres⟩ := inlineInBlockList_wf_aux (k0 :: kt) hks
+          obtain ⟨hnl, hlev⟩ := preIIB_kids hp
+          simp only [List.isEmpty_cons, Bool.false_or, Bool.false_eq_true, if_false, hok, bind, Except.bind]
+          cases hb : isBlockContainer ty
+          · simp only [Bool.not_false, if_true, pure, Except.pure]
+            refine ⟨_, rfl, rfl, rfl, ?_, ?_⟩
+            · simp [allN_mk, bcOK, blockContainerOK, hb, hbc]
+            · simp only [allN_mk, hla, Bool.and_true, Bool.or_eq_true, linesAlone, List.all_eq_true]
+              refine Or.inr (Or.inl fun k' hk' => ?_)
+              obtain ⟨k, hk, hty, _⟩ := hpres k' hk'
+              simpa [hty] using hnl k hk
+          · simp only [Bool.not_true, Bool.false_eq_true, if_false]
+            have hcs : ∀ c ∈ ks', c.ty ≠ .line ∧
+                (isBlockLevel c.ty = true ∨ isInlineLevel c.ty = true) ∧ Good c := by
+              intro c hc
+              obtain ⟨k, hk, hty, _⟩ := hpres c hc
+              refine ⟨by rw [hty]; exact hnl k hk, by rw [hty]; exact hlev hb k hk, ?_, ?_⟩
+              · exact (allNList_iff _ _).1 hbc c hc
+              · exact (allNList_iff _ _).1 hla c hc
+            obtain ⟨r, hr', hres⟩ := iibLoop_good a ks' [] [] hcs (fun _ h => nomatch h) (fun _ h => nomatch h)
+            obtain ⟨h1, h2, h3, h4⟩ := bcOK_of_result (ty := ty) (a := a) hres
+            simp only [hr', pure, Except.pure]
+            refine ⟨_, rfl, rfl, rfl, ?_, ?_⟩
+            · simp [allN_mk, h1, h2]
+            · simp [allN_mk, h3, h4 hb]
+      · simp only [Bool.or_true, if_true, pure, Except.pure]
+        exact ⟨_, rfl, rfl, rfl, by simp [allN_mk, hr], by simp [allN_mk, hr]⟩
+  theorem inlineInBlockList_wf_aux : ∀ (ks : List Box), allNList preIIB ks = true →
+      ∃ ks', inlineInBlockList ks = .ok ks' ∧ allNList bcOK ks' = true ∧ allNList linesAlone ks' = true ∧
+        (∀ k' ∈ ks', ∃ k ∈ ks, k'.ty = k.ty ∧ k'.a = k.a)
+    | [], _ => by
+      rw [inlineInBlockList]
+      exact ⟨[], rfl, by simp [allNList], by simp [allNList], fun _ h => nomatch h⟩
+    | k :: ks, h => by
+      rw [allNList, Bool.and_eq_true] at h
+      obtain ⟨ks', hok, hbc, hla, hpres⟩ := inlineInBlockList_wf_aux ks h.2
+      rw [inlineInBlockList]
+      split
+      · refine ⟨ks', hok, hbc, hla, fun k' hk' => ?_⟩
+        obtain ⟨k1, hk1, h1⟩ := hpres k' hk'
+        exact ⟨k1, List.mem_cons_of_mem _ hk1, h1⟩
+      · obtain ⟨k', hok', hty, ha, hg⟩ := inlineInBlock_wf_aux k h.1
+        simp only [hok', hok, bind, Except.bind, pure, Except.pure]
+        refine ⟨_, rfl, by simp [allNList, hg.1, hbc], by simp [allNList, hg.2, hla], fun x hx => ?_⟩
+        rcases List.mem_cons.1 hx with rfl | hx
+        · exact ⟨k, List.mem_cons_self .., hty, ha⟩
+        · obtain ⟨k1, hk1, h1⟩ := hpres x hx
+          exact ⟨k1, List.mem_cons_of_mem _ hk1, h1⟩
+end
+
+/-- `inlineInBlock` never fails on a tree of shape `preIIB`, keeps the type and attributes of the root,
+    and establishes `bcOK` and `linesAlone` at every box (outside running subtrees). -/
+theorem inlineInBlock_wf (b : Box) (h : allN preIIB b = true) :
+    ∃ b', inlineInBlock b = .ok b' ∧ b'.ty = b.ty ∧ b'.a = b.a ∧
+      allN bcOK b' = true ∧ allN linesAlone b' = true := by
+  obtain ⟨b', h1, h2, h3, h4, h5⟩ := inlineInBlock_wf_aux b h
+  exact ⟨b', h1, h2, h3, h4, h5⟩
+
+/-- list version: the surviving children keep their types and attributes -/
+theorem inlineInBlockList_wf (ks : List Box) (h : allNList preIIB ks = true) :
+    ∃ ks', inlineInBlockList ks = .ok ks' ∧ allNList bcOK ks' = true ∧ allNList linesAlone ks' = true ∧
+      (∀ k' ∈ ks', ∃ k ∈ ks, k'.ty = k.ty ∧ k'.a = k.a) :=
+  inlineInBlockList_wf_aux ks h
+
+/-! ### non-vacuity -/
+
+/-- a block holding text "a", a block with a text child, text "b" -/
+def exIIB : Box :=
+  .mk .block {} [
+    .mk .text { text := "a" } [] [],
+    .mk .block {} [.mk .text { text := "c" } [] []] [],
+    .mk .text { text := "b" } [] []] []
+
+example : allN preIIB exIIB = true := by decide
+
+/-- the pass wraps the two text runs in anonymous blocks holding one line box each, and the inner
+    block's text in a line box -/
+example : ∃ b', inlineInBlock exIIB = .ok b' ∧ allN bcOK b' = true ∧ allN linesAlone b' = true ∧
+    (b'.kids.map Box.ty) = [.block, .block, .block] ∧
+    (b'.kids.map fun k => k.kids.map Box.ty) = [[.line], [.line], [.line]] :=
+  ⟨_, rfl, by decide, by decide, by decide, by decide⟩
+
 end WR.C09
